@@ -133,6 +133,7 @@ structure Ev where
   cancelled : Bool := false
   cause : Option Nat := none
   effects : Int := 0
+  selfDone : Bool := false   -- ghost: the event's own "done" step (eventDone / cancelled skip) has decremented `effects`
   val : Val := {}
   mgr : Nat := 0             -- Value.manager: the component `fire` was called on
   arg : Nat := 0             -- first argument when it is a component (prepare_unregister etc.)
